@@ -31,8 +31,10 @@ def sql_cases(tier, seed):
                 ops.append("len")
             elif r < 0.84:
                 ops.append("setmax %d" % rng.choice([0, 1, 2, 3, 5, 100]))
-            elif r < 0.90:
+            elif r < 0.88:
                 ops.append("reopen")
+            elif r < 0.90:
+                ops.append("reopen2 %d 0" % (rng.random() < 0.3))     # the same database under the always-add policy from now on
             elif r < 0.93:
                 ops.append(rng.choice(["save", "save", "append"]))     # to the database's own path: nothing may change
             else:
@@ -132,10 +134,12 @@ def c20_corr(res, exe, driver, tier, seed, tmp):
                 cur_max = int(t[1])
                 if len(ref) > cur_max:
                     ref = ref[len(ref) - cur_max:]
-            elif t[0] == "reopen":
+            elif t[0] in ("reopen", "reopen2"):
                 stats["reopens"] += 1
                 session_open = False
                 cur_max = int(mx)          # the new object is built from the same Config
+                if t[0] == "reopen2":
+                    igs, igd = t[1], t[2]
             elif t[0] in ("search", "sw"):
                 stats["searches"] += 1
                 term = "".join(chr(c) for c in dec(t[1]))
